@@ -35,7 +35,7 @@ func raceMods() []modVer {
 
 func raceScenarios() []scenario {
 	scs := concScenarios(false)
-	b := func(ext string) creq { return creq{"a.com/big", "v1.0.0", ext} }
+	b := func(ext string) creq { return creq{Path: "a.com/big", Vers: "v1.0.0", Ext: ext} }
 	return append(scs,
 		scenario{"zip||info||mod large module", []creq{b("zip"), b("info"), b("mod")}, 0},
 		scenario{"zip||zip||info large module", []creq{b("zip"), b("zip"), b("info")}, 0},
